@@ -220,6 +220,20 @@ class Ctx:
         self.decisions.append(("ch", k))
         return k
 
+    def recorded(self, compute):
+        """A model-derived hint (any JSON-able value) that steers control flow: computed once at the
+        frontier and replayed verbatim, so that re-execution along a prefix is deterministic."""
+        if self.pos < len(self.prefix):
+            pick = self.prefix[self.pos]
+            if not (isinstance(pick, tuple) and pick[0] == "val"):
+                raise Unsupported("non-deterministic replay (recorded hint)")
+            v = pick[1]
+        else:
+            v = compute()
+        self.pos += 1
+        self.decisions.append(("val", v))
+        return v
+
     def concretise(self, term, limit=64):
         """Fork over concrete values of a bit-vector term (used for __index__)."""
         e = z3.simplify(term)
